@@ -39,6 +39,10 @@ pub struct SeqCfg {
     pub opaque_mod: usize,
     /// vbucket ids to put into the requests (by command index); empty = 0 everywhere
     pub vbuckets: Vec<u16>,
+    /// commands with an alphabet index >= this are executed by a second OS thread (0 = off)
+    pub alt_thread_from: usize,
+    /// do not merge histories that reach the same (dump, model) state
+    pub no_dedup: bool,
 }
 
 #[derive(Clone, Debug, PartialEq, Eq, Hash, PartialOrd, Ord)]
@@ -67,6 +71,42 @@ pub struct Runner<'a> {
     pub world: World,
     pub conn: Conn,
     pub model: Model,
+    /// the second worker thread of this runner (configurations with `alt_thread_from`): it lives as
+    /// long as the runner, like a server's worker thread
+    helper: Option<Helper>,
+}
+
+/// One request to the helper thread: (address of the runner's Conn, request bytes, choice prefix).
+type HelperJob = (usize, Vec<u8>, Vec<usize>);
+
+struct Helper {
+    tx: std::sync::mpsc::Sender<HelperJob>,
+    rx: std::sync::mpsc::Receiver<(crate::sut::ExecOut, explore::Ctx)>,
+    _handle: std::thread::JoinHandle<()>,
+}
+
+impl Helper {
+    fn start() -> Helper {
+        let (tx, jobs) = std::sync::mpsc::channel::<HelperJob>();
+        let (res_tx, rx) = std::sync::mpsc::channel();
+        let handle = std::thread::spawn(move || {
+            crate::sut::set_quiet(true);
+            crate::sut::init_hooks();
+            while let Ok((conn_addr, bytes, prefix)) = jobs.recv() {
+                // SAFETY: the address is that of the owning runner's `conn`; the runner's thread is
+                // blocked on `rx.recv()` until this job is answered, so the access is exclusive,
+                // and the runner outlives the job.
+                let conn: &mut Conn = unsafe { &mut *(conn_addr as *mut Conn) };
+                explore::begin(prefix);
+                let out = conn.exec(&bytes);
+                let ctx = explore::end();
+                if res_tx.send((out, ctx)).is_err() {
+                    break;
+                }
+            }
+        });
+        Helper { tx, rx, _handle: handle }
+    }
 }
 
 pub fn opaque_for(idx: usize) -> u32 {
@@ -105,7 +145,8 @@ impl<'a> Runner<'a> {
         let mut model = Model::new(cfg.evict, mem_limit);
         model.now = cfg.start_time;
         model.item_limit = Some(cfg.sut.item_limit);
-        Runner { cfg, world, conn, model }
+        let helper = if cfg.alt_thread_from > 0 { Some(Helper::start()) } else { None };
+        Runner { cfg, world, conn, model, helper }
     }
 
     pub fn apply(&mut self, idx: usize, choices: &[u8]) -> Applied {
@@ -164,9 +205,19 @@ impl<'a> Runner<'a> {
         let bytes = req.bytes();
         let before = self.world.dump();
         let usage_before = self.world.usage();
-        explore::begin(choices.iter().map(|c| *c as usize).collect());
-        let out = self.conn.exec(&bytes);
-        let ctx = explore::end();
+        // commands from index `alt_thread_from` on are executed by another OS thread (strictly one
+        // after the other: no race, only the identity of the executing thread differs)
+        let on_helper = self.cfg.alt_thread_from > 0 && idx >= self.cfg.alt_thread_from;
+        let prefix: Vec<usize> = choices.iter().map(|c| *c as usize).collect();
+        let (out, ctx) = if on_helper {
+            let h = self.helper.as_ref().expect("helper thread");
+            h.tx.send((&mut self.conn as *mut Conn as usize, bytes.clone(), prefix)).expect("helper thread alive");
+            h.rx.recv().expect("helper thread answered")
+        } else {
+            explore::begin(prefix);
+            let out = self.conn.exec(&bytes);
+            (out, explore::end())
+        };
         ap.divergence = ctx.divergence.clone();
         ap.choice_ns = ctx.log.iter().map(|p| p.n).collect();
         let after = self.world.dump();
@@ -174,6 +225,16 @@ impl<'a> Runner<'a> {
         let obs = Observed { resps, residue, panic: out.panic.clone(), decode_err: out.decode_err.clone() };
         let sctx = StepCtx { cmd, cas, opaque, obs: &obs, before: &before, after: &after, evicting: !ap.choice_ns.is_empty() };
         ap.viols = self.model.step(&sctx);
+        // a live item evicted without pressure: the recorded defect is that the *counter* had drifted
+        // above the limit; an eviction while even the counter is far below the limit is something else
+        if let (Some(ub), Policy::Random(limit)) = (usage_before, self.cfg.sut.policy) {
+            let attempted: u64 = 24 + bytes.len() as u64;
+            if ub < (1u64 << 63) && ub.saturating_add(attempted) <= limit {
+                for vl in ap.viols.iter_mut().filter(|v| v.clause == "live-item-lost") {
+                    vl.tag = "+counter-below-limit".to_string();
+                }
+            }
+        }
         if out.panic.is_some() || out.decode_err.is_some() {
             ap.pruned = true;
         }
@@ -567,7 +628,9 @@ pub fn explore_seq(cfg: &SeqCfg, threads: usize, tree_depth: usize) -> SeqReport
                                     continue;
                                 }
                                 let fp = r.fingerprint();
-                                if insert(fp) {
+                                // configurations that look for state the fingerprint cannot see (e.g. state
+                                // tied to the executing thread) enumerate histories, not states
+                                if cfg.no_dedup || insert(fp) {
                                     states.fetch_add(1, Ordering::Relaxed);
                                     local_next.push(nh);
                                 }
